@@ -9,6 +9,7 @@ Part 3: custom-loader tapes (ROM LD-BYTES relocated to RAM with one of the recog
         projection of the snapshots for the TLC judge.
 """
 import contextlib
+import time
 import io
 import os
 import random
@@ -16,7 +17,7 @@ import zlib
 
 from ..lib import cbuild
 from ..lib.common import REPO, MachineryError
-from . import loaddrv, pipedrv, snapfile, tapedrv
+from . import loaddrv, pipedrv, snapfile, tapedrv, z80len
 
 BASE = 0x9000          # where the loop images live (>= 0x8000: tap2sna's default in_min_addr)
 EXIT = 0x7000          # where time-out exits / returns lead (outside every loop region)
@@ -56,8 +57,18 @@ def accelerator_image(acc):
             for i in range(j + 1, k):
                 out[i] = 0x00
         j = k
-    if code[-1] in (0xCA, 0xC2, 0xF2, 0xFA):           # pattern ends at the opcode of JP cc,LD_SAMPLE
-        out += [BASE % 256, BASE // 256]
+    # walk the instructions: a pattern may end in the middle of its last one (the opcode of JP cc,LD_SAMPLE)
+    j = 0
+    while j < n:
+        if code[j] == WILD:                             # filler skipped by a JR
+            j += 1
+            continue
+        ln = z80len.length(out + [0, 0, 0], j)
+        if j + ln > n:
+            if out[j] & 0xC7 != 0xC2 or j + ln - n != 2:
+                raise MachineryError('accelerator %s: pattern ends inside %02X' % (acc.name, out[j]))
+            out += [BASE % 256, BASE // 256]
+        j += ln
     return out
 
 
@@ -86,3 +97,786 @@ def export_accelerators():
                         lr=acc.loop_r_inc, ear=acc.ear if acc.ear_mask else -1, mask=acc.ear_mask, pol=acc.polarity,
                         ov=ov, img=img, inaddr=BASE + acc.c0, lo=BASE, hi=BASE + len(img) - 1, pre=pre, earbase=earbase))
     return res
+
+
+# ------------------------------------------------------------------------------------------------ part 2
+SINK = 0xA000
+FAR = 400000
+FRAME = 69888
+TP_KEYS = ('next', 'idx', 'ended', 'bend', 'run', 'custom', 'tend', 'unann')
+
+
+def _base_mem():
+    from .simdrv import BASE as PATTERN
+    return PATTERN
+
+
+def _tracer_cfg(accs, deca, pause, stop, timeout):
+    return {'accelerate_dec_a': deca, 'accelerators': accs, 'fast_load': 0, 'finish_tape': 0, 'first_edge': 0, 'in_min_addr': 0x8000,
+            'list_accelerators': 1, 'pause': pause, 'polarity': 0, 'stop': stop, 'timeout': timeout, 'tracefile': None,
+            'trace_line': None, 'prefix': None, 'byte_fmt': None, 'word_fmt': None}
+
+
+def _tape_blocks(specs):
+    """specs: list of (pulse durations, data bytes, (zero, one), pause T-states) -> skoolkit TapeBlock objects."""
+    from skoolkit.tape import TapeBlock, TapeBlockTimings
+    blocks = []
+    for n, (pulses, data, (z, o), pause) in enumerate(specs, 1):
+        tm = TapeBlockTimings(pulses=tuple((1, d) for d in pulses), zero=(z, z), one=(o, o), pause=pause)
+        b = TapeBlock(n, bytes(data), tm)
+        b.keys = None
+        blocks.append(b)
+    return blocks
+
+
+def run_scenario(sc):
+    """Run one scenario on the real code under each configuration. Returns the TLC case (with observations)."""
+    from skoolkit import CSimulator
+    from skoolkit.simulator import Simulator
+    from skoolkit.loadtracer import LoadTracer
+    from skoolkit.loadsample import ACCELERATORS, Accelerator
+    pattern = _base_mem()
+    case = None
+    obs = []
+    for impl, cls in (('py', Simulator), ('c', CSimulator)):
+        for cfgname, accnames, deca in sc['configs']:
+            mem = list(pattern)
+            for a, v in sc['ov']:
+                mem[a] = v
+            ref = bytes(mem)
+            sim = cls(mem if cls is Simulator else bytearray(ref), config={'fast_djnz': False, 'fast_ldir': False})
+            mem = sim.memory
+            if accnames == 'auto':
+                accs = set(Accelerator(*args) for args in ACCELERATORS.values())
+            else:
+                accs = set(Accelerator(*ACCELERATORS[n]) for n in accnames)
+            tracer = LoadTracer(sim, _tape_blocks(sc['tape']), _tracer_cfg(accs, deca, sc['pause'], sc['stop'], sc['timeout']), None)
+            edges = [int(e) for e in tracer.edges]
+            blocks = [{'s': int(b.start), 'e': int(b.end)} for b in tracer.blocks]
+            st = tracer.state
+            tp = dict(sc['tp'])
+            if tp.get('mid'):
+                # start in the middle of the first block: edge number idx is the last one passed
+                st[1] = tp['idx']
+                st[0] = edges[tp['idx'] + 1]
+                st[4], st[5], st[7] = 1, 1, 0
+            regs = list(sc['r'])
+            if sc.get('t_rel') is not None:
+                regs[25] = edges[tp['idx']] + sc['t_rel'] if tp.get('mid') else sc['t_rel']
+            if case is None:
+                tp0 = dict(zip(TP_KEYS, (int(st[i]) for i in range(8))))
+                tp0['bidx'] = int(tracer.block_index)
+                case = {'key': sc['key'], 'S': {'edges': edges, 'blocks': blocks, 'pause': sc['pause'], 'inmin': 0x8000, 'rom48': 1, 'inrc': sc.get('inrc', 0),
+                                              'frame': FRAME, 'ia': 32},
+                        'r': regs, 'ov': sc['ov'], 'tp': tp0, 'stops': [sc['stop']], 'fuel': sc['fuel']}
+            for i, v in enumerate(regs):
+                sim.registers[i] = v
+            sim.set_tracer(tracer, bool(sc.get('inrc', 0)), False)
+            exc = ''
+            try:
+                with contextlib.redirect_stdout(io.StringIO()):
+                    tracer.run(7, 0, 0, [0] * 16, 0)
+            except Exception as e:       # an exception is an observation
+                exc = '%s: %s' % (type(e).__name__, e)
+            after = bytes(mem)
+            wr = [[a, after[a]] for a in range(65536) if after[a] != ref[a]] if after != ref else []
+            tp1 = dict(zip(TP_KEYS, (int(tracer.state[i]) for i in range(8))))
+            tp1['bidx'] = int(tracer.block_index)
+            if impl == 'c' and cfgname == 'auto':
+                tp1['idx'] += 1
+            obs.append({'impl': '%s/%s' % (impl, cfgname), 'r': [int(v) for v in sim.registers][:30], 'tp': tp1, 'wr': wr, 'exc': exc,
+                        'hits': sum(int(a.hits) for a in accs) + int(tracer.dec_a_jr_hits) + int(tracer.dec_a_jp_hits)})
+    case['obs'] = obs
+    return case
+
+
+def loop_image(acc, lo=BASE):
+    """accelerator image + exits: fall-through and the EXIT address jump to SINK, forward jumps land in a NOP sled."""
+    img = list(acc['img'])
+    jp = [0xC3, SINK % 256, SINK // 256]
+    body = img + jp
+    body += [0x00] * (40 - len(body)) + jp
+    ov = [[lo + i, b] for i, b in enumerate(body)]
+    ov += [[EXIT + i, b] for i, b in enumerate(jp)]
+    ov += [[STACK, EXIT % 256], [STACK + 1, EXIT // 256], [SINK, 0x00]]
+    return ov
+
+
+REG_INDEX = {3: 2, 4: 3, 5: 4, 6: 5, 7: 6, 8: 7, 1: 0}    # TLA (1-based) -> skoolkit register index
+
+
+def gen_loop_scenario(rnd, acc, idx_in_list):
+    """A sampling loop entered at its first byte with the next edge a few iterations away."""
+    lt = acc['lt']
+    p = rnd.randrange(2) if acc['mask'] else (1 + acc['pol']) % 2
+    idx = 2 + p
+    ctr = rnd.choice((rnd.randrange(256), rnd.randrange(256), rnd.choice((0, 1, 2, 127, 128, 250, 251, 252, 253, 254, 255))))
+    kind = rnd.choice(('near', 'near', 'near', 'limit', 'level', 'late', 'iff', 'blockend'))
+    k = rnd.choice((1, 1, 2, 3, 4, 6, 9))
+    d = (k - 1) * lt + rnd.choice((0, 1, lt - 1, rnd.randrange(lt))) + 40
+    if kind == 'limit':
+        d = 12 * lt + rnd.randrange(lt)
+        ctr = rnd.choice((250, 252, 253, 254)) if acc['inc'] else rnd.choice((1, 2, 3, 5, 0))
+    elif kind == 'late':
+        d = rnd.choice((0, 1, 5, 16))            # the edge has (nearly) passed when the first IN starts
+    regs = [(i * 37 + ctr) % 256 for i in range(30)]
+    regs[12] = STACK
+    regs[13] = 0
+    regs[24] = BASE
+    regs[25] = 0
+    regs[26] = 1 if kind == 'iff' else 0
+    regs[27], regs[28], regs[29] = 1, 0, 0
+    regs[1] = rnd.randrange(256)
+    regs[15] = rnd.randrange(256)
+    regs[acc['counter']] = ctr
+    if acc['mask']:
+        bit = ((idx - acc['pol']) % 2) * acc['mask']
+        if kind == 'level':
+            bit ^= acc['mask']                    # the loop does not spin at this level
+        regs[acc['ear']] = acc['earbase'] + bit
+    for tr, v in acc['pre']:
+        regs[REG_INDEX[tr]] = v
+    # tape: edges 0,10,20,(30) in the past, the next one d T-states after the start, then far ones; one data byte closes the block
+    past = [1000] + [10] * (idx - 1)
+    t_rel = 7                                      # start 7 T-states after edge number idx
+    pulses = past + [d + t_rel] + [FAR] * (2 if kind != 'blockend' else 0)
+    tape = [(pulses, [0xA5], (FAR, FAR + 1), 0)]
+    if kind == 'blockend':
+        tape = [(pulses, [], (FAR, FAR + 1), 3500), ([FAR], [0xA5], (FAR, FAR + 1), 0)]
+        tape = [(past + [d + t_rel], [0x80], (FAR, FAR + 1), 0)]      # the block ends two edges after the next one
+    name = acc['name']
+    configs = [('none', (), 0), ('one', (name,), 0), ('auto', 'auto', 3)]
+    fuel = (min(k, 40) + 8) * 16 + 80 if kind != 'limit' else 22 * 16 + 80
+    return {'key': 'loop/%s/%s' % (name, kind), 'ov': loop_image(acc), 'r': regs, 't_rel': t_rel, 'tp': {'mid': 1, 'idx': idx}, 'tape': tape,
+            'pause': 1, 'stop': SINK, 'timeout': 10 ** 6, 'fuel': fuel, 'configs': configs, 'inrc': int(acc['code'][acc['c0']] == 0xED)}
+
+
+def gen_deca_scenario(rnd):
+    kind = rnd.choice(('jr', 'jr', 'jp', 'jp', 'other'))
+    a = rnd.choice((rnd.randrange(256), rnd.randrange(1, 40), rnd.randrange(1, 40), rnd.choice((0, 1, 2, 255, 0x16, 3))))
+    iff = 1 if rnd.random() < 0.15 else 0
+    lo = rnd.choice((BASE, 0x8000, 0xC0F0, 0x80FE))
+    jp = [0xC3, SINK % 256, SINK // 256]
+    if kind == 'jr':
+        code = [0x3D, 0x20, 0xFD] + jp
+    elif kind == 'jp':
+        code = [0x3D, 0xC2, lo % 256, lo // 256] + jp
+    else:
+        code = [0x3D, 0x20, 0xFC] + jp              # DEC A: JR NZ,$-2 is not the delay loop; entered at DEC A
+        code = [0x00] + code
+        a = rnd.randrange(1, 30)
+    ov = [[lo + i, b] for i, b in enumerate(code)] + [[SINK, 0]]
+    regs = [(i * 29 + a) % 256 for i in range(30)]
+    regs[0] = a
+    regs[1] = rnd.randrange(256)
+    regs[12], regs[13] = STACK, 0
+    regs[15] = rnd.randrange(256)
+    regs[24] = lo + (1 if kind == 'other' else 0)
+    regs[25] = 50000 + rnd.randrange(4000)
+    regs[26] = iff
+    regs[27], regs[28], regs[29] = 1, 0, 0
+    tape = [([2168] * 4, [0xFF], (855, 1710), 0)]
+    configs = [('d%d' % d, (), d) for d in range(4)]
+    return {'key': 'deca/%s/%s' % (kind, 'iff' if iff else 'di'), 'ov': ov, 'r': regs, 't_rel': None, 'tp': {}, 'tape': tape, 'pause': 1,
+            'stop': SINK, 'timeout': 10 ** 7, 'fuel': 2 * 256 + 8 if kind != 'other' else 3 * 40, 'configs': configs}
+
+
+def gen_player_scenario(rnd):
+    """A straight-line program of port reads and delays over a 2-3 block tape: announce, block change, pause, last edge."""
+    nb = rnd.choice((1, 2, 2, 3))
+    tape = []
+    for b in range(nb):
+        pulses = [rnd.choice((600, 900, 2168, 50, 5)) for _ in range(rnd.randrange(1, 5))]
+        data = [rnd.randrange(256)] if rnd.random() < 0.8 or b == nb - 1 else []
+        unit = rnd.choice((300, 855, 70))
+        tape.append((pulses, data, (unit, 2 * unit), rnd.choice((0, 0, 3500, 20000))))
+    code = []
+    steps = 0
+    for _ in range(rnd.randrange(6, 30)):
+        w = rnd.random()
+        if w < 0.55:
+            code += [0x3E, rnd.choice((0x7F, 0xFE, 0x00)), 0xDB, 0xFE]       # LD A,n: IN A,($FE)
+            steps += 2
+        elif w < 0.65:
+            code += [0xDB, rnd.choice((0xFF, 0x1F))]                           # a port that is not the ULA
+            steps += 1
+        elif w < 0.9:
+            n = rnd.choice((1, 3, 20, 60, 100))
+            code += [0x06, n, 0x10, 0xFE]                                      # LD B,n: DJNZ $
+            steps += 1 + n
+        else:
+            code += [0x00] * rnd.randrange(1, 6)
+            steps += 6
+    code += [0xC3, SINK % 256, SINK // 256]
+    lo = rnd.choice((0x8000, 0x9000, 0x7F00))        # 0x7F00: below in_min_addr - the tape is not heard
+    ov = [[lo + i, b] for i, b in enumerate(code)] + [[SINK, 0]]
+    regs = [(i * 31 + 7) % 256 for i in range(30)]
+    regs[12], regs[13] = STACK, 0
+    regs[24] = lo
+    regs[25] = rnd.choice((0, 1000, 123456))
+    regs[26] = 0
+    regs[27], regs[28], regs[29] = 1, 0, 0
+    pause = rnd.randrange(2)
+    configs = [('p%d' % pause, (), 0), ('p%d-auto' % pause, 'auto', 3)]
+    return {'key': 'player/b%d/p%d/%s' % (nb, pause, 'low' if lo < 0x8000 else 'hi'), 'ov': ov, 'r': regs, 't_rel': None, 'tp': {}, 'tape': tape,
+            'pause': pause, 'stop': SINK, 'timeout': 10 ** 7, 'fuel': steps + 8, 'configs': configs}
+
+
+def scenario_worker(args):
+    seed, n_loop_rounds, n_deca, n_player, part, parts = args
+    _skool()
+    rnd = random.Random(seed)
+    accs = export_accelerators()
+    out = []
+    for rnd_round in range(n_loop_rounds):
+        for i, acc in enumerate(accs):
+            if (i + rnd_round) % parts == part:
+                out.append(run_scenario(gen_loop_scenario(rnd, acc, i)))
+    for _ in range(n_deca):
+        out.append(run_scenario(gen_deca_scenario(rnd)))
+    for _ in range(n_player):
+        out.append(run_scenario(gen_player_scenario(rnd)))
+    return out
+
+
+# ------------------------------------------------------------------------------------------------ part 3
+ROM_LD_BYTES = 0x0556
+ROM_LD_EDGE_2 = 0x05E3
+ROM_LD_EDGE_1 = 0x05E7
+ROM_END = 0x0605
+# absolute operands inside 0x0556..0x05E6 that point into the routine itself (CALL LD-EDGE-1/2, JP NC,LD-8-BITS)
+ROM_ABS = (0x056D, 0x057C, 0x0583, 0x0592, 0x059C, 0x05CB, 0x05D6, 0x05E4)
+
+
+def rom48():
+    with open(os.path.join(REPO, 'skoolkit', 'resources', '48.rom'), 'rb') as f:
+        rom = f.read()
+    sig = (rom[0x0556:0x055A], rom[0x055E:0x0562], rom[0x0562:0x056B], rom[0x05E7:0x05ED])
+    want = (bytes((0x14, 0x08, 0x15, 0xF3)), bytes((0x21, 0x3F, 0x05, 0xE5)), bytes((0xDB, 0xFE, 0x1F, 0xE6, 0x20, 0xF6, 0x02, 0x4F, 0xBF)),
+            bytes((0x3E, 0x16, 0x3D, 0x20, 0xFD, 0xA7)))
+    if sig != want:
+        raise MachineryError('48.rom does not contain the LD-BYTES routine this harness relocates')
+    for a in ROM_ABS:
+        t = rom[a] + 256 * rom[a + 1]
+        if not ROM_LD_BYTES <= t < ROM_END or rom[a - 1] not in (0xCD, 0xD2):
+            raise MachineryError('unexpected operand at %04X in 48.rom' % a)
+    return rom
+
+
+def ear_usable(acc):
+    """Accelerator shapes that can stand in for the ROM's LD-SAMPLE: counter B, EAR state in C, loop while unchanged."""
+    return acc['counter'] == 2 and acc['inc'] == 1 and acc['ear'] == 3 and acc['mask'] in (0x20, 0x40) and acc['pol'] == 0
+
+
+def build_loader(rom, org, acc, dly, wait, decjp=False):
+    """ROM LD-BYTES relocated to `org` with LD-EDGE-1 rebuilt around the sampling loop of `acc`, delay constant `dly`,
+    leader wait `wait` (HL count). Returns (code bytes, entry address)."""
+    body = bytearray(rom[ROM_LD_BYTES:ROM_LD_EDGE_1])          # up to and including LD-EDGE-2
+    delta = org - ROM_LD_BYTES
+    for a in ROM_ABS:
+        o = a - ROM_LD_BYTES
+        t = body[o] + 256 * body[o + 1] + delta
+        body[o], body[o + 1] = t % 256, t // 256
+    # LD HL,wait instead of LD HL,$0415
+    o = 0x0571 - ROM_LD_BYTES
+    if body[o] != 0x21:
+        raise MachineryError('LD HL,$0415 not found')
+    body[o + 1], body[o + 2] = wait % 256, wait // 256
+    if acc['mask'] == 0x40:
+        # the loop tests bit 6 of the port directly: initial EAR state without RRA, AND $40
+        o = 0x0564 - ROM_LD_BYTES
+        body[o] = 0x00
+        body[o + 2] = 0x40
+    edge1 = org + len(body)
+    if decjp:
+        here = edge1 + 2
+        delay = [0x3E, dly, 0x3D, 0xC2, here % 256, here // 256, 0xA7]          # LD A,dly: DEC A: JP NZ,$-1: AND A
+    else:
+        delay = [0x3E, dly, 0x3D, 0x20, 0xFD, 0xA7]                               # LD A,dly: DEC A: JR NZ,$-1: AND A
+    sample = edge1 + len(delay)
+    img = list(acc['img'])
+    # re-aim absolute operands of the image (built for BASE) at the new place
+    code = acc['code']
+    for j in range(len(img) - 1):
+        if img[j] + 256 * img[j + 1] == BASE and (j >= len(code) or code[j] == WILD):
+            img[j], img[j + 1] = sample % 256, sample // 256
+    tail = [0x79, 0x2F, 0x4F, 0xE6, 0x07, 0xF6, 0x08, 0xD3, 0xFE, 0x37, 0xC9]     # LD A,C: CPL: LD C,A: AND 7: OR 8: OUT ($FE),A: SCF: RET
+    pad = [0xC9] * 24                                                              # forward time-out exits land on RET (carry clear)
+    stub = sample + len(img) + len(tail) + len(pad)
+    out = bytes(body) + bytes(delay + img + tail + pad) + bytes((0xC9,))
+    out = bytearray(out)
+    # exits that the image sends to EXIT (JP cc,EXIT) -> a RET in the padding
+    retaddr = sample + len(img) + len(tail)
+    for j in range(len(body) + len(delay), len(body) + len(delay) + len(img) - 1):
+        if out[j] == EXIT % 256 and out[j + 1] == EXIT // 256:
+            out[j], out[j + 1] = retaddr % 256, retaddr // 256
+    # LD HL,$053F: PUSH HL -> LD HL,stub (a RET that hands carry back to the caller)
+    o = 0x055E - ROM_LD_BYTES
+    out[o + 1], out[o + 2] = stub % 256, stub // 256
+    # the ROM's LD-EDGE-2 is CALL LD-EDGE-1: RET NC and now points at org+... (relocated above) - make it point at edge1
+    o = ROM_LD_EDGE_2 - ROM_LD_BYTES
+    out[o + 1], out[o + 2] = edge1 % 256, edge1 // 256
+    for a in (0x056D, 0x0592, 0x059C):                                             # CALL LD-EDGE-1
+        o = a - ROM_LD_BYTES
+        out[o], out[o + 1] = edge1 % 256, edge1 // 256
+    return bytes(out)
+
+
+def loader_timings(acc, dly, scale=1.0):
+    """Pulse lengths that the relocated loader accepts, from its loop time and delay constant."""
+    lt = acc['lt']
+    o = 79 + 16 * dly - 5                      # per-edge overhead around the sampling loop
+    thr = 2 * o + 27 * lt                      # two-edge time that separates a 0 bit from a 1 bit (B > $CB after $B0)
+    zero = int(0.355 * thr * scale)
+    pilot = int((2 * o + 62 * lt) / 2 * scale)
+    sync1 = int((o + 4 * lt) * scale)
+    return dict(pilot=pilot, sync1=sync1, sync2=sync1 + 70, zero=zero, one=2 * zero)
+
+
+def stage_code(stages, fin):
+    """LD IX,dest: LD DE,len: LD A,flag: SCF: CALL loader: JP NC,fin  for every stage, then JP fin."""
+    code = []
+    for dest, length, flag, entry in stages:
+        code += [0xDD, 0x21, dest % 256, dest // 256, 0x11, length % 256, length // 256, 0x3E, flag, 0x37, 0xCD, entry % 256, entry // 256,
+                 0xD2, fin % 256, fin // 256]
+    code += [0xC3, fin % 256, fin // 256]
+    return code
+
+
+def parity(flag, data):
+    p = flag
+    for b in data:
+        p ^= b
+    return p
+
+
+def gen_custom(rnd, accs, idx):
+    """A program = stage code + relocated loader + FIN, to be put on tape by bin2tap, and the blocks it loads afterwards."""
+    usable = [a for a in accs if ear_usable(a)]
+    acc = usable[idx % len(usable)] if idx is not None else rnd.choice(usable)
+    dly = rnd.choice((0x16, 0x16, 0x0C, 0x1E))
+    decjp = rnd.random() < 0.3
+    org = rnd.choice((0x8000, 0x8100, 0x9C40, 0xB000))
+    nstages = rnd.choice((1, 2, 2, 3))
+    kinds = [rnd.choice(('custom', 'custom', 'rom')) for _ in range(nstages)]
+    if 'custom' not in kinds:
+        kinds[rnd.randrange(nstages)] = 'custom'
+    wait = rnd.choice((0x0020, 0x0030, 0x0040))
+    scale = rnd.choice((1.0, 1.0, 0.93, 1.08))
+    return dict(acc=acc['name'], dly=dly, decjp=int(decjp), org=org, kinds=kinds, wait=wait, scale=scale,
+                lens=[rnd.choice((1, 2, 17, 40, 90, 150)) for _ in kinds], flags=[rnd.choice((0xFF, 0xAA, 0x81, 0xD3)) for _ in kinds],
+                stack=rnd.choice((0, 0x7F00, 0x6000)), tail=rnd.random() < 0.3)
+
+
+def build_custom(rom, accs, g, rnd):
+    """-> (program bytes, org, fin, tape block list [(kind, flag, data, timings)], loads [(addr, bytes)])."""
+    acc = [a for a in accs if a['name'] == g['acc']][0]
+    org = g['org']
+    n = len(g['kinds'])
+    scode_len = 16 * n + 3
+    lorg = org + scode_len
+    loader = build_loader(rom, lorg, acc, g['dly'], g['wait'], bool(g['decjp']))
+    fin = lorg + len(loader)
+    dest = fin + 16
+    stages, blocks, loads = [], [], []
+    tm = loader_timings(acc, g['dly'], g['scale'])
+    for kind, ln, flag in zip(g['kinds'], g['lens'], g['flags']):
+        data = [rnd.randrange(256) for _ in range(ln)]
+        stages.append((dest, ln, flag, ROM_LD_BYTES if kind == 'rom' else lorg))
+        blocks.append((kind, flag, data, tm))
+        loads.append((dest, data))
+        dest += ln + rnd.choice((0, 3))
+    prog = bytes(stage_code(stages, fin)) + loader + bytes((0x00,))
+    if len(prog) != fin - org + 1:
+        raise MachineryError('custom program layout')
+    return prog, org, fin, blocks, loads
+
+
+def write_custom_tape(wd, tag, prog, org, fin, blocks, g, fmt='tzx'):
+    """bin2tap puts the program on tape (BASIC loader + code loader + program); the custom blocks follow."""
+    from skoolkit import bin2tap
+    src = os.path.join(wd, tag + '.bin')
+    tap = os.path.join(wd, tag + '.tap')
+    with open(src, 'wb') as f:
+        f.write(prog)
+    args = ['-o', str(org), '-s', str(org)]
+    if g['stack']:
+        args += ['-p', str(g['stack'])]
+    _, e, rc = pipedrv.run_tool(bin2tap.main, args + [src, tap])
+    if rc or not os.path.isfile(tap):
+        raise MachineryError('bin2tap failed for a custom loader program: %s' % e[-300:])
+    raw = open(tap, 'rb').read()
+    tapblocks = []
+    i = 0
+    while i + 2 <= len(raw):
+        ln = raw[i] + 256 * raw[i + 1]
+        tapblocks.append(raw[i + 2:i + 2 + ln])
+        i += 2 + ln
+    out = bytearray(tapedrv.tzx_header())
+    for b in tapblocks:
+        out += tapedrv.tzx10(b, 1000)
+    for k, (kind, flag, data, tm) in enumerate(blocks):
+        payload = bytes([flag] + data + [parity(flag, data)])
+        last = k == len(blocks) - 1
+        pause = 0 if last and not g['tail'] else (1000 if kind == 'rom' else 400)
+        if kind == 'rom':
+            out += tapedrv.tzx10(payload, pause)
+        else:
+            # enough pilot for the shortened wait plus the 256 leader pairs the loader wants to see
+            npilot = 1400
+            out += tapedrv.tzx11(payload, pilot=tm['pilot'], sync1=tm['sync1'], sync2=tm['sync2'], zero=tm['zero'], one=tm['one'],
+                                 pilot_len=npilot, used=8, pause_ms=pause)
+    if g['tail']:
+        out += tapedrv.tzx12(2168, 300)            # a trailing tone nobody reads
+    path = os.path.join(wd, tag + '.tzx')
+    with open(path, 'wb') as f:
+        f.write(out)
+    return path
+
+
+SIM_KEYS = ('accelerator', 'accelerate-dec-a', 'pause', 'python', 'fast-load', 'cmio', 'polarity', 'first-edge')
+
+
+def cfg_opts(cfg):
+    return ['%s=%s' % (k, cfg[k]) for k in SIM_KEYS if k in cfg]
+
+
+def cfg_class(cfg):
+    return 'fl%s-cm%s-po%s-fe%s' % (cfg.get('fast-load', 1), cfg.get('cmio', 0), cfg.get('polarity', 0), cfg.get('first-edge', 0))
+
+
+def cfg_name(cfg):
+    return ';'.join('%s=%s' % (k, cfg[k]) for k in SIM_KEYS if k in cfg) or 'default'
+
+
+def page_sigs(banks):
+    """CRC of every 256-byte page of every RAM bank present (a trusted projection of 'all RAM')."""
+    out = []
+    for b in sorted(banks):
+        d = banks[b]
+        out += [zlib.crc32(d[i:i + 256]) & 0x7FFFFFFF for i in range(0, 16384, 256)]
+    return out
+
+
+def peek(s, addr):
+    banks = s['banks']
+    if addr < 0x4000:
+        return -1
+    if s['machine'] == '48K':
+        return banks[{1: 5, 2: 2, 3: 0}[addr // 0x4000]][addr % 0x4000]
+    return banks[{1: 5, 2: 2, 3: s['o7ffd'] % 8}[addr // 0x4000]][addr % 0x4000]
+
+
+REGS16 = ('bc', 'de', 'hl', 'ix', 'iy', 'bc2', 'de2', 'hl2')
+REGS8 = ('a', 'f', 'i', 'a2', 'f2', 'iff1', 'iff2', 'im', 'border')
+
+
+def run_tap2sna(tape, out, start, cfg, machine128=False):
+    from skoolkit import tap2sna
+    args = []
+    if machine128:
+        args += ['-c', 'machine=128']
+    for o in cfg_opts(cfg):
+        args += ['-c', o]
+    args += ['-c', 'timeout=120', '--start', str(start), tape, out]
+    # tap2sna does not store the clock in the snapshot (get_state(simulator, False)): read it where the snapshot is taken
+    seen = {}
+    orig = getattr(tap2sna, 'get_state', None)
+    if orig is not None:
+        def spy(simulator, *a, **kw):
+            seen['t'] = int(simulator.registers[25])
+            return orig(simulator, *a, **kw)
+        tap2sna.get_state = spy
+    try:
+        so, se, rc = pipedrv.run_tool(tap2sna.main, args)
+    finally:
+        if orig is not None:
+            tap2sna.get_state = orig
+    if rc or not os.path.isfile(out):
+        return None, 'tap2sna rc=%s %s' % (rc, (se or so)[-200:]), so
+    try:
+        s = snapfile.read_snapshot(out)
+        s['clock'] = seen.get('t', -1)
+    except Exception as e:
+        return None, 'snapshot unreadable: %s' % e, so
+    finally:
+        try:
+            os.remove(out)
+        except OSError:
+            pass
+    return s, '', so
+
+
+def project(s, err, cfg, loads, scratch=()):
+    """One run -> the record TLC compares."""
+    if s is None:
+        return {'cfg': cfg_name(cfg), 'cls': cfg_class(cfg), 'err': err, 'pc': -1, 'sp': -1, 'r': -1, 't': -1, 'regs': [], 'pages': [], 'data': [],
+                'o7ffd': -1}
+    data = []
+    for addr, bs in loads:
+        data.append([peek(s, addr + i) for i in range(len(bs))])
+    return {'cfg': cfg_name(cfg), 'cls': cfg_class(cfg), 'err': '', 'pc': s['pc'], 'sp': s['sp'], 'r': s['r'] ^ (1 if cfg.get('pause') == 0 else 0),
+            't': s['clock'], 'regs': [s[k] for k in REGS8] + [s[k] for k in REGS16],
+            'pages': page_sigs(s['banks']), 'data': data, 'o7ffd': s['o7ffd'] & 0x3F}
+
+
+# ---------------------------------------------------------------- configuration matrix
+def group_rows(rnd, names, n, python=False):
+    """n configurations of the bit-identical group (accelerator, accelerate-dec-a, pause[, python])."""
+    rows = []
+    seen = set()
+    tries = 0
+    while len(rows) < n and tries < 200:
+        tries += 1
+        row = {'accelerator': rnd.choice(('auto', 'none', names)), 'accelerate-dec-a': rnd.randrange(4), 'pause': rnd.randrange(2)}
+        key = tuple(sorted(row.items()))
+        if key in seen or (row['accelerator'] == 'auto' and row['accelerate-dec-a'] == 3 and row['pause'] == 1):
+            continue
+        seen.add(key)
+        if python:
+            row['python'] = 1
+        rows.append(row)
+    return rows
+
+
+def full_rows(names):
+    return [{'accelerator': a, 'accelerate-dec-a': d, 'pause': p, 'python': y}
+            for a in ('auto', 'none', names) for d in range(4) for p in (0, 1) for y in (0, 1)]
+
+
+def matrix(rnd, names, tier, small, full=False, pyfl0=False):
+    """List of configurations; the first one is the default configuration."""
+    cfgs = [{}]
+    q = tier == 'quick'
+    if full:
+        for fl in (1, 0):
+            for row in full_rows(names):
+                if row == {'accelerator': 'auto', 'accelerate-dec-a': 3, 'pause': 1, 'python': 0} and fl == 1:
+                    continue
+                cfgs.append(dict(row, **{'fast-load': fl}))
+        for fl in (1, 0):
+            for p in (0, 1):
+                for y in (0, 1):
+                    cfgs.append({'cmio': 1, 'fast-load': fl, 'pause': p, 'python': y})
+        return cfgs
+    cfgs += group_rows(rnd, names, 5 if q else 10)
+    cfgs += [dict(r, **{'fast-load': 0}) for r in [{}] + group_rows(rnd, names, 4 if q else 8)]
+    cfgs += [{'cmio': 1}, {'cmio': 1, 'pause': 0, 'accelerator': rnd.choice(('auto', 'none'))}, {'cmio': 1, 'fast-load': 0, 'pause': rnd.randrange(2)}]
+    pol = {'polarity': 1, 'fast-load': rnd.randrange(2)}
+    cfgs += [pol] + [dict(r, **pol) for r in group_rows(rnd, names, 1 if q else 3)]
+    fe = {'first-edge': rnd.choice((1, 100, 3500, 70001)), 'fast-load': rnd.randrange(2)}
+    cfgs += [fe] + [dict(r, **fe) for r in group_rows(rnd, names, 1 if q else 3)]
+    if small:
+        cfgs += [{'python': 1}] + group_rows(rnd, names, 1 if q else 4, python=True)
+        if q and pyfl0:
+            cfgs += [{'python': 1, 'fast-load': 0, 'accelerator': rnd.choice(('auto', names)), 'accelerate-dec-a': rnd.choice((1, 3))}]
+        if not q:
+            cfgs += [{'python': 1, 'cmio': 1}, {'python': 1, 'fast-load': 0, 'accelerator': rnd.choice(('auto', names))},
+                     {'python': 1, 'fast-load': 0, 'pause': 0, 'accelerate-dec-a': rnd.randrange(4)}]
+    return cfgs
+
+
+def env_of(cfg):
+    return (cfg.get('polarity', 0), cfg.get('first-edge', 0))
+
+
+def run_matrix(tape, start, cfgs, loads, wd, tag, m128=False, scratch=None):
+    """Run every configuration; returns (runs, dropped environments). A tape-side environment (polarity, first-edge) whose
+    own default run does not load the tape is outside the property's 'tape that loads' and is dropped."""
+    runs = []
+    base_ok = {}
+    dropped = []
+    for k, cfg in enumerate(cfgs):
+        env = env_of(cfg)
+        if base_ok.get(env) is False:
+            continue
+        s, err, _ = run_tap2sna(tape, os.path.join(wd, '%s_%d.z80' % (tag, k)), start, cfg, m128)
+        p = project(s, err, cfg, loads)
+        if scratch:
+            for (addr, bs), got in zip(loads, p['data']):
+                for i in range(len(got)):
+                    if scratch[0] <= addr + i < scratch[1]:
+                        got[i] = -2
+        if env not in base_ok:
+            good = p['err'] == '' and p['pc'] == start
+            base_ok[env] = good
+            if not good:
+                dropped.append('%s:%s' % (env, p['err'] or 'pc=%d' % p['pc']))
+                continue
+        runs.append(p)
+    return runs, dropped
+
+
+def custom_worker(args):
+    seed, indices, tier, wd, fullset = args
+    _skool()
+    rnd = random.Random(seed)
+    rom = rom48()
+    accs = export_accelerators()
+    sub = os.path.join(wd, 'cu%d' % seed)
+    os.makedirs(sub, exist_ok=True)
+    out = []
+    for idx in indices:
+        g = gen_custom(rnd, accs, idx)
+        full = idx in fullset
+        if full:
+            g['lens'] = [min(x, 40) for x in g['lens']]
+        prog, org, fin, blocks, loads = build_custom(rom, accs, g, rnd)
+        tag = 'c%d' % idx
+        tape = write_custom_tape(sub, tag, prog, org, fin, blocks, g)
+        names = g['acc'] + (',rom' if 'rom' in g['kinds'] else '')
+        cfgs = matrix(rnd, names, tier, True, full, pyfl0=idx % 8 == 0)
+        t0 = time.time()
+        runs, dropped = run_matrix(tape, fin, cfgs, loads, sub, tag)
+        expect = [d for _, d in loads]
+        case = {'key': 'custom/%s/dly%02X/%s%s' % (g['acc'], g['dly'], '+'.join(g['kinds']), '/decjp' if g['decjp'] else ''), 'start': fin,
+                'expect': expect, 'runs': runs, 'dropped': dropped, 'gen': g, 'tape': os.path.basename(tape), 'names': names, 'wall': round(time.time() - t0, 2)}
+        out.append(case)
+        for f in os.listdir(sub):
+            if f.startswith(tag + '.'):
+                os.remove(os.path.join(sub, f))
+    return out
+
+
+def c12_worker(args):
+    seed, n, tier, wd = args
+    _skool()
+    rnd = random.Random(seed)
+    sub = os.path.join(wd, 'b%d' % seed)
+    os.makedirs(sub, exist_ok=True)
+    out = []
+    for k in range(n):
+        g = loaddrv.gen_case(rnd, seed * 1000 + k)
+        if g['size'] > 7000:
+            g['size'] = 6912
+            g['data'] = g['data'][:6912]
+        ref = loaddrv.run_case(sub, k, g, rnd, keep_tape=True)
+        ref.pop('ramfull', None)
+        if ref['err'] or ref['loaderr'] or ref['pc'] != g['start']:
+            out.append({'key': 'c12/' + ref['key'], 'skipped': ref['err'] or ref['loaderr'] or 'pc'})
+            continue
+        tape = ref['tape']
+        loads = [(g['org'], g['data'])]
+        scratch = (g['stack'] - 14, g['stack']) if g['clear'] < 0 else None
+        small = g['size'] <= 300 and not g['m128'] and not g['scr']
+        cfgs = matrix(rnd, 'rom', tier, small)
+        t0 = time.time()
+        runs, dropped = run_matrix(tape, g['start'], cfgs, loads, sub, 'p%d' % k, bool(g['m128']), scratch)
+        expect = [list(runs[0]['data'][0])] if runs else []
+        out.append({'key': 'c12/' + ref['key'], 'start': g['start'], 'expect': expect, 'runs': runs, 'dropped': dropped,
+                    'gen': {k2: g[k2] for k2 in ('m128', 'size', 'org', 'start', 'stack', 'clear', 'opts', 'fmt')}, 'tape': os.path.basename(tape),
+                    'names': 'rom', 'wall': round(time.time() - t0, 2)})
+        for f in os.listdir(sub):
+            if f.startswith('p%d.' % k) or f.startswith('p%d_' % k):
+                try:
+                    os.remove(os.path.join(sub, f))
+                except OSError:
+                    pass
+    return out
+
+
+# ---------------------------------------------------------------- isolated probes (real CLI in a subprocess)
+def cli_tap2sna(tape, out, start, cfg):
+    """tap2sna.py as a subprocess (a crash of the C simulator must not take the harness down)."""
+    import subprocess
+    from ..lib.common import PY
+    cmd = [PY, os.path.join(REPO, 'tap2sna.py')]
+    for o in cfg_opts(cfg):
+        cmd += ['-c', o]
+    cmd += ['-c', 'timeout=60', '--start', str(start), tape, out]
+    try:
+        p = subprocess.run(cmd, env=cbuild.sub_env(), stdout=subprocess.PIPE, stderr=subprocess.STDOUT, text=True, errors='replace', timeout=300)
+    except subprocess.TimeoutExpired:
+        return None, 'tap2sna did not finish in 300 s'
+    if p.returncode < 0:
+        return None, 'tap2sna killed by signal %d' % -p.returncode
+    if p.returncode or not os.path.isfile(out):
+        return None, 'tap2sna rc=%s %s' % (p.returncode, p.stdout[-200:].replace('\x08', ''))
+    try:
+        s = snapfile.read_snapshot(out)
+        s['clock'] = 0                     # not observable from outside the process
+    except Exception as e:
+        return None, 'snapshot unreadable: %s' % e
+    finally:
+        try:
+            os.remove(out)
+        except OSError:
+            pass
+    return s, ''
+
+
+def probe_dec_counter_zero(wd):
+    """An edge counter that re-enters the 'software-projects' sampling loop (DEC B after the IN) with B = 0, i.e. a
+    256-iteration time-out: the fast-forward arithmetic must treat counter 0 as 256."""
+    _skool()
+    from skoolkit import bin2tap
+    org = 0x8000
+    code = [0xF3, 0x0E, 0x00, 0x11, 0xD0, 0x07]                                       # DI: LD C,0: LD DE,2000
+    nxt = org + len(code)
+    code += [0x06, 0x00]                                                               # next: LD B,0
+    code += [0x3E, 0x7F, 0xDB, 0xFE, 0xA9, 0xE6, 0x40, 0x20, 0x04, 0x05, 0x20, 0xF4]   # LD A,$7F: IN A,($FE): XOR C: AND $40: JR NZ,+4: DEC B: JR NZ,loop
+    code += [0x00]                                                                     # time-out: fall into 'found'
+    code += [0x79, 0x2F, 0x4F, 0x1B, 0x7A, 0xB3]                                       # found: LD A,C: CPL: LD C,A: DEC DE: LD A,D: OR E
+    code += [0x20, (nxt - (org + len(code) + 2)) & 0xFF]                               # JR NZ,next
+    fin = org + len(code)
+    code += [0x00]
+    src, tap, tzx = (os.path.join(wd, 'dcz.' + e) for e in ('bin', 'tap', 'tzx'))
+    with open(src, 'wb') as f:
+        f.write(bytes(code))
+    _, e, rc = pipedrv.run_tool(bin2tap.main, ['-o', str(org), src, tap])
+    if rc:
+        raise MachineryError('bin2tap failed: %s' % e[-200:])
+    raw = open(tap, 'rb').read()
+    out = bytearray(tapedrv.tzx_header())
+    i = 0
+    while i + 2 <= len(raw):
+        ln = raw[i] + 256 * raw[i + 1]
+        out += tapedrv.tzx10(raw[i + 2:i + 2 + ln], 1000)
+        i += 2 + ln
+    out += tapedrv.tzx10(bytes([0xFF, 1, 2, 3, 0xFF ^ 1 ^ 2 ^ 3]), 0)
+    with open(tzx, 'wb') as f:
+        f.write(out)
+    runs = []
+    for cfg in ({'accelerator': 'none', 'accelerate-dec-a': 0}, {}, {'python': 1}, {'accelerator': 'software-projects', 'pause': 0}):
+        s, err = cli_tap2sna(tzx, os.path.join(wd, 'dcz.z80'), fin, cfg)
+        runs.append(project(s, err, cfg, []))
+    return {'key': 'probe/dec-counter-zero', 'start': fin, 'expect': [], 'runs': runs, 'dropped': [], 'names': 'software-projects',
+            'gen': {'program': bytes(code).hex(), 'org': org, 'how': 'bin2tap -o 32768; TAP blocks as TZX 0x10 (pause 1000) + block FF 01 02 03 FF'},
+            'tape': 'dcz.tzx'}
+
+
+def probe_short_pulse(wd):
+    """A pulse shorter than one sampling-loop period in the middle of the pilot tone of the last block (TZX pure tone +
+    pulse sequence + pure data): the tape loads with and without acceleration."""
+    _skool()
+    from skoolkit import bin2tap
+    org = 40000
+    data = [random.Random(1).randrange(256) for _ in range(50)]
+    src, tap, tzx = (os.path.join(wd, 'sp.' + e) for e in ('bin', 'tap', 'tzx'))
+    with open(src, 'wb') as f:
+        f.write(bytes(data))
+    _, e, rc = pipedrv.run_tool(bin2tap.main, ['-o', str(org), src, tap])
+    if rc:
+        raise MachineryError('bin2tap failed: %s' % e[-200:])
+    raw = open(tap, 'rb').read()
+    blocks = []
+    i = 0
+    while i + 2 <= len(raw):
+        ln = raw[i] + 256 * raw[i + 1]
+        blocks.append(raw[i + 2:i + 2 + ln])
+        i += 2 + ln
+    out = bytearray(tapedrv.tzx_header())
+    for b in blocks[:-1]:
+        out += tapedrv.tzx10(b, 1000)
+    out += tapedrv.tzx12(2168, 1750) + tapedrv.tzx13([20]) + tapedrv.tzx12(2168, 3223) + tapedrv.tzx13([667, 735])
+    out += tapedrv.tzx14(blocks[-1], pause_ms=0)
+    with open(tzx, 'wb') as f:
+        f.write(out)
+    loads = [(org, data)]
+    runs = []
+    for cfg in ({'fast-load': 0, 'accelerator': 'none'}, {'fast-load': 0}, {'fast-load': 0, 'accelerator': 'rom', 'pause': 0}):
+        s, err, _ = run_tap2sna(tzx, os.path.join(wd, 'sp.z80'), org, cfg)
+        runs.append(project(s, err, cfg, loads))
+    return {'key': 'probe/short-pulse', 'start': org, 'expect': [data], 'runs': runs, 'dropped': [], 'names': 'rom',
+            'gen': {'how': 'bin2tap -o 40000 of 50 bytes; last block replaced by TZX 0x12 (2168 x 1750), 0x13 [20], 0x12 (2168 x 3223), '
+                           '0x13 [667, 735], 0x14 data; fast-load=0'}, 'tape': 'sp.tzx'}
